@@ -25,3 +25,25 @@ PROPS['C01'] = dict(
         dict(name='gfpart_2x2_r1', harness='h_gfpart', defs=['OUTER=2', 'INNER=2', 'REGIME=1'],
              split={'C': R(16), 'CX': R(16)}, witnesses=['computed', 'poles_merged'], validate=[{'C': 15, 'CX': 15}]),
     ])
+
+PROPS['C14'] = dict(
+    claim='Bounded symbolic execution of the real SusceptibilityPart/TermList code against the documented bosonic '
+          'Lehmann sum including the zero-energy pole weight (static limit).',
+    bounds={Q: 'operator blocks up to 2x2 (all pattern pairs), z=0 and z away from 0', T: 'blocks up to 3x2'},
+    assumptions=['double read as exact real', 'inputs satisfy the invariants of C03/C09/C10',
+                 'Lehmann representation of the imaginary-time integral (mathematical step)'],
+    outside=['poles closer than 1e-8 but not equal', '0 < |z| < 1e-10'],
+    units=[
+        dict(name='suscpart_2x1_z0', harness='h_suscpart', defs=['OUTER=2', 'INNER=1', 'REGIME=0', 'ZCASE=0'],
+             split={'A': R(4)}, witnesses=['computed', 'two_or_more_terms', 'zero_pole'], validate=[{'A': 3, 'B': 3}]),
+        dict(name='suscpart_1x2_z1', harness='h_suscpart', defs=['OUTER=1', 'INNER=2', 'REGIME=0', 'ZCASE=1'],
+             split={'A': R(4)}, witnesses=['computed', 'two_or_more_terms', 'zero_pole'],
+             validate=[{'A': 3, 'B': 3}, {'A': 1, 'B': 2}]),
+        dict(name='suscpart_2x2_r0_z0', harness='h_suscpart', defs=['OUTER=2', 'INNER=2', 'REGIME=0', 'ZCASE=0'],
+             split={'A': R(16), 'B': R(16)}, witnesses=['computed', 'two_or_more_terms', 'zero_pole'],
+             validate=[{'A': 15, 'B': 15}, {'A': 6, 'B': 11}]),
+        dict(name='suscpart_2x2_r0_z1', harness='h_suscpart', defs=['OUTER=2', 'INNER=2', 'REGIME=0', 'ZCASE=1'],
+             split={'A': R(16), 'B': R(16)}, witnesses=['computed', 'zero_pole'], validate=[{'A': 15, 'B': 15}]),
+        dict(name='suscpart_2x2_r1_z0', harness='h_suscpart', defs=['OUTER=2', 'INNER=2', 'REGIME=1', 'ZCASE=0'],
+             split={'A': R(16), 'B': R(16)}, witnesses=['computed', 'poles_merged'], validate=[{'A': 15, 'B': 15}]),
+    ])
